@@ -184,6 +184,14 @@ class SourceDataWrapper(ABC):
             Structured numpy.ndarray objects with the consecutive chunks of the source data.
         """
 
+        # the number of rows was taken from the first data set; the others must not be shorter (they would be
+        # broadcast or the copy would fail midway) nor longer (they would be silently truncated)
+        total_n_rows = self._data_source[next(iter(self._mapping.values()))].shape[0]
+        for dataset_name in self._mapping.values():
+            if (n := self._data_source[dataset_name].shape[0]) != total_n_rows:
+                raise ValueError(f"All data sets of a frame must have the same number of rows; "
+                                 f"'{dataset_name}' has {n} rows, expected {total_n_rows}")
+
         if chunk_rows is None:
             chunk_rows = self._n_rows
             n_full_chunks = 1
